@@ -6,6 +6,8 @@ import (
 	"go/token"
 	"go/types"
 	"strings"
+
+	"golang.org/x/tools/go/packages"
 )
 
 func runC08R2(c *Ctx, r *Rep) {
@@ -91,6 +93,8 @@ func runC08R3(c *Ctx, r *Rep) {
 			if call, ok := kv.Value.(*ast.CallExpr); ok {
 				if f := Callee(pyp.TypesInfo, call); f != nil && f.Name() == "Copy" {
 					copies = true
+				} else if f != nil && f.Pkg() == pyp.Types && isNewFunc(FuncID(f)) && returnsFreshContainer(c, pyp, f) {
+					copies = true // a helper written since the reference that builds the instance's own dictionary
 				}
 			}
 		}
@@ -489,4 +493,68 @@ func runC08R8(c *Ctx, r *Rep) {
 			r.okTrivial(rel+"|no goroutines", token.NoPos, "no go statements")
 		}
 	}
+}
+
+// returnsFreshContainer: every return of the function hands back a container the function itself made — a local whose
+// every assignment is make(…), a composite literal or a .Copy() call — or such an expression directly.
+func returnsFreshContainer(c *Ctx, p *packages.Package, fn *types.Func) bool {
+	fd := c.Decl(fn)
+	if fd == nil || fd.Body == nil {
+		return false
+	}
+	info := p.TypesInfo
+	fresh := func(e ast.Expr) bool {
+		switch x := unparen(e).(type) {
+		case *ast.CompositeLit:
+			return true
+		case *ast.CallExpr:
+			if isBuiltinCall(info, x, "make") {
+				return true
+			}
+			if f := Callee(info, x); f != nil && f.Name() == "Copy" {
+				return true
+			}
+		}
+		return false
+	}
+	ok, n := true, 0
+	ast.Inspect(fd.Body, func(nd ast.Node) bool {
+		if _, isLit := nd.(*ast.FuncLit); isLit {
+			return false
+		}
+		rs, isRet := nd.(*ast.ReturnStmt)
+		if !isRet || len(rs.Results) == 0 {
+			return true
+		}
+		n++
+		res := rs.Results[0]
+		if fresh(res) {
+			return true
+		}
+		id := identOf(res)
+		if id == nil {
+			ok = false
+			return true
+		}
+		obj := info.Uses[id]
+		assigned := 0
+		ast.Inspect(fd.Body, func(m ast.Node) bool {
+			if as, isAs := m.(*ast.AssignStmt); isAs && len(as.Lhs) == len(as.Rhs) {
+				for i, l := range as.Lhs {
+					if lid := identOf(l); lid != nil && info.ObjectOf(lid) == obj {
+						assigned++
+						if !fresh(as.Rhs[i]) {
+							ok = false
+						}
+					}
+				}
+			}
+			return true
+		})
+		if assigned == 0 {
+			ok = false
+		}
+		return true
+	})
+	return ok && n > 0
 }
